@@ -46,7 +46,7 @@ def _job(args):
         import traceback
 
         d = dict(spec=name, target=spec.target, cfg=cfg, paths=0, infeasible=0, undecided=[], assumptions=[],
-                 canaries={}, cover=None, wall_s=time.time() - t0, solver_s=0.0,
+                 canaries={}, cover=None, scoped_paths=0, wall_s=time.time() - t0, solver_s=0.0,
                  errors=[traceback.format_exc()[-2000:]], outcomes={}, obligations=[])
     return d
 
@@ -276,6 +276,9 @@ def main(argv=None):
         for b in broken[:5]:
             print(f"CHECKER-BROKEN {b[0]} {b[1]}: {b[2][:300]}")
 
+    if os.environ.get("PYVC_TIMING"):
+        for r, (name, cfg, _) in sorted(zip(results, jobs), key=lambda x: -x[0]["wall_s"])[:8]:
+            print(f"[timing] {r['wall_s']:.1f}s solver={r['solver_s']:.1f}s paths={r['paths']}+{r.get('scoped_paths', 0)} {name} {cfg}")
     known_obs = sum(1 for name, cfg, o in failed if any(k.get("obligation") == o["name"] for k in kf))
     claimed_ob = n_ob - known_obs
     meta = {}
@@ -294,6 +297,7 @@ def main(argv=None):
             backends=backends, solver_s_total=round(solver_s, 3),
             configurations=len(jobs),
             paths_explored=sum(r["paths"] for r in results),
+            scoped_subpaths_explored=sum(r.get("scoped_paths", 0) for r in results),
             known_finding_obligations=known_obs,
             failed_obligations=[dict(contract=n, cfg=c, obligation=o["name"]) for n, c, o in failed][:40],
             undecided=[dict(contract=n, cfg=c, reason=u[:200]) for n, c, u in undecided][:40],
